@@ -557,6 +557,7 @@ func (w *world) enabled(order []int, draining bool) []kernel.Event {
 			// the badkty answer, only keys of an unknown type): everything cached before is retired by it
 			evs = append(evs, kernel.Event{Name: "rotate:clear", Weight: 1, Apply: func() {
 				w.rotations++
+				w.o.Probe("every-key-withdrawn")
 				w.mu.Lock()
 				w.served = nil
 				w.mu.Unlock()
